@@ -69,6 +69,8 @@ def execute(spec, want=("C01",), keep_trace=False):
         relay.count = {"q": 0, "a": 0}
         relay.plan = {(d, n): f for d, n, f in spec.get("plan", [])}
         relay.redeliver = {int(k): v for k, v in spec.get("redeliver", {}).items()}
+        relay.hs_qhist = list(relay.qhist)
+        relay.redeliver_hs = {int(k): v for k, v in spec.get("redeliver_hs", {}).items()}
         relay.qhist = []
         rng = random.Random(seed * 7 + 1)
         frames = {}
